@@ -23,6 +23,7 @@ Inductive case :=
 | CDeps (ns : list node) (g : graph) (c : rawcfg) (n : nat) (t : bool)
 | CRdeps (ns : list node) (g : graph) (c : rawcfg) (n : nat) (t : bool)
 | COwners (ns : list node) (files : list str)
+| COwnersVerbatim (ns : list node) (files : list str)
 | CListq (ns : list node) (g : graph) (c : rawcfg)
 | CCost (g : graph) (t b : nat)
 | CCostv (g : graph) (t b : nat)
@@ -81,6 +82,7 @@ Definition run_case (c : case) : str :=
   | CRdeps ns g r n t => with_cfg r (fun c =>
       tabs [L "lines"; lines (rdeps_query c ns g n t); lines (rdeps_query_dedup c ns g n t)])
   | COwners ns files => tabs [L "lines"; lines (owners ns files)]
+  | COwnersVerbatim ns files => tabs [L "lines"; lines (owners_verbatim ns files)]
   | CListq ns g r => with_cfg r (fun c => tabs [L "lines"; lines (list_query c ns g)])
   | CCost g t b =>
       if negb (topob g && wf_graphb g) then L "not-topological" else
